@@ -89,7 +89,7 @@ pub fn run() {
     {
         Ok(args) => args,
         Err(bad) => {
-            eprintln!("Error: argument is not valid UTF-8: {bad:?}");
+            let _ = writeln!(std::io::stderr(), "Error: argument is not valid UTF-8: {bad:?}");
             std::process::exit(1);
         }
     };
@@ -105,7 +105,8 @@ pub fn run() {
                 _ => {}
             }
         }
-        eprintln!("Error: {e}");
+        // eprintln! panics when stderr is closed or on a full device
+        let _ = writeln!(std::io::stderr(), "Error: {e}");
         std::process::exit(1);
     }
 }
